@@ -1,8 +1,11 @@
-(* Extract_own.v -- extraction of the crs::own_data state machine (Own.v, property C10-A3).
-   QcS/Vec/Crs are extracted only because ocaml/io.ml (shared case parser) refers to them. *)
+(* Extract_own.v -- extraction of the crs::own_data state machine (Own.v, property C10-A3) and of
+   the array-level models with uninitialised cells (LowLevel2*.v, property C10-A2).
+   QcS/Vec/Crs are extracted because ocaml/io.ml (shared case parser) refers to them. *)
 From Amgcl Require Import ExtractCommon.
 From Coq Require Import QArith Qcanon.
-From Amgcl Require Import Scalar QcInst Vec Crs Own.
+From Amgcl Require Import Scalar QcInst Vec Crs Own LowLevel LowLevelT LowLevel2 LowLevel2G.
 Separate Extraction
   QcInst.QcS Scalar.is_zero Scalar.smax Scalar.smin
-  Vec Crs Own.
+  Vec Crs Own
+  LowLevelT.flat_of LowLevel2.ll_sort_rows LowLevel2.fresh LowLevel2.filled
+  LowLevel2G.ll_spgemm LowLevel2G.minit.
